@@ -3,9 +3,9 @@
 package env
 
 import (
+	"fmt"
 	"testing"
 
-	sdk "github.com/cosmos/cosmos-sdk/types"
 	consensustypes "github.com/palomachain/paloma/v2/x/consensus/types"
 	evmtypes "github.com/palomachain/paloma/v2/x/evm/types"
 	schedulertypes "github.com/palomachain/paloma/v2/x/scheduler/types"
@@ -70,13 +70,19 @@ func TestE2EvmChains(t *testing.T) {
 		if err != nil {
 			t.Fatal(err)
 		}
+		kinds := map[string]int{}
 		for _, m := range msgs {
 			cm, err := m.ConsensusMsg(e.App.AppCodec())
 			if err != nil {
 				t.Fatal(err)
 			}
 			mm := cm.(*evmtypes.Message)
+			kinds[fmt.Sprintf("%T", mm.Action)]++
 			t.Logf("  queue %s: id %d %T turnstone=%q assignee=%s", c.chain, m.GetId(), mm.Action, mm.TurnstoneID, mm.Assignee)
+		}
+		// the chain left on the previous snapshot gets its just-in-time valset update with the first logic call
+		if c.chain == "eth-main" && (kinds["*types.Message_UpdateValset"] != 1 || kinds["*types.Message_SubmitLogicCall"] != 1) {
+			t.Errorf("eth-main queue: %v", kinds)
 		}
 	}
 	if err := e.RunTo(75); err != nil {
@@ -86,5 +92,4 @@ func TestE2EvmChains(t *testing.T) {
 	if len(vals) != 3 {
 		t.Fatalf("bonded validators at height %d: %d", e.Height, len(vals))
 	}
-	_ = sdk.AccAddress{}
 }
